@@ -1166,8 +1166,13 @@ def process(ctx, cases, sampled, first):
             # allocation (C03): measured peak against the model's meter
             if not c.meta.get('echo') and kb.get('peak') is not None and ka.get('alloc') is not None:
                 total = sum(len(f.wire()) for f in c.frames) + len(c.meta.get('tail') or '') // 2
-                if int(kb['peak']) > int(ka['alloc']) + ALLOC_SLACK:
-                    ctx.report(cj, 'peak heap growth %s' % kb['peak'], 'model meter %s (+%d)' % (ka['alloc'], ALLOC_SLACK),
+                # the property bounds allocation by a constant multiple of the bytes supplied (64x, the constant proved for the
+                # model: C03_wsmsg); the model's own meter is specific to how the code concatenates fragments today, so exceeding
+                # it within that bound is counted, not reported (a running buffer instead of collect-then-concatenate does it)
+                if ALLOC_SLACK + int(ka['alloc']) < int(kb['peak']) <= 64 * total + ALLOC_SLACK:
+                    ctx.count('allocation above the model meter, within 64 x supplied')
+                if int(kb['peak']) > 64 * total + ALLOC_SLACK:
+                    ctx.report(cj, 'peak heap growth %s' % kb['peak'], '<= 64 x %d bytes supplied (+%d); model meter %s' % (total, ALLOC_SLACK, ka['alloc']),
                                cls='alloc-bound', failing_input=True,
                                what='receiving %d bytes of client frames [%s] allocated %s bytes (model bound %s)' % (
                                    total, describe(c.frames), kb['peak'], ka['alloc']))
